@@ -355,6 +355,7 @@ def _f1_known(verif):
     return any(k.get("id") == "F1" and k.get("status") == "known" for k in ks)
 
 
+SKIPPED_ENGINES = {}  # property -> note, filled by custom_build when an auxiliary engine cannot be built
 GOFUZZ_PROPS = sorted(p for p, spec in PROPS.items() if any(j.get("kind") == "gofuzz" for j in spec["jobs"]))
 MODFILE_ARGS = lambda: []  # set by ./check (a -modfile redirecting the replace to VERIF_REPO)
 
@@ -374,7 +375,13 @@ def custom_build(pid, tier, repo, verif, work, goenv, log):
         if gofuzz.build(repo, verif, work, goenv, log, MODFILE_ARGS()) is None:
             return False
     if pid in CFUZZ_TARGETS:
-        return cfuzz.build(CFUZZ_TARGETS[pid], repo, verif, work, goenv, log, _f1_known(verif)) is not None
+        if cfuzz.build(CFUZZ_TARGETS[pid], repo, verif, work, goenv, log, _f1_known(verif)) is None:
+            # The libFuzzer targets call internal C functions by name; a refactoring of the C layer that renames one or
+            # changes a signature makes them uncompilable although the Go module still builds.  The targets are an
+            # auxiliary engine: the property is then decided by the Go-level jobs alone, and the evidence says so.
+            SKIPPED_ENGINES[pid] = "libFuzzer targets %s could not be built against this tree (internal C interfaces changed?): their jobs were skipped" % CFUZZ_TARGETS[pid]
+            log("ENGINE-UNAVAILABLE: " + SKIPPED_ENGINES[pid])
+        return True
     if pid == "C20":
         return c20_build.build(repo, verif, work, goenv, log) is not None
     if pid == "C15":
